@@ -19,6 +19,9 @@ func TestMain(m *testing.M) {
 		}
 	}
 	loadKnown()
+	// the environment templates can read through env()/envOr() is the harness's
+	os.Setenv("VERIF_ENV_A", "env<A>&")
+	os.Unsetenv("VERIF_ENV_MISSING")
 	if n, err := strconv.Atoi(os.Getenv("VERIF_TIMER_SITES")); err == nil {
 		simrt.TimerSites = n
 	}
